@@ -57,12 +57,48 @@ def nnf(e: ast.expr, neg: bool = False) -> ast.expr:
     return e
 
 
+class _Truthy(ast.NodeTransformer):
+    """in a boolean context `len(x)`, `len(x) > 0`, `len(x) != 0` mean `x`; `len(x) == 0` means `not x`"""
+
+    def _len_arg(self, e):
+        if isinstance(e, ast.Call) and isinstance(e.func, ast.Name) and e.func.id == "len" and len(e.args) == 1 and not e.keywords:
+            return e.args[0]
+        return None
+
+    def boolctx(self, e):
+        if isinstance(e, ast.BoolOp):
+            return ast.BoolOp(op=e.op, values=[self.boolctx(v) for v in e.values])
+        if isinstance(e, ast.UnaryOp) and isinstance(e.op, ast.Not):
+            return ast.UnaryOp(op=ast.Not(), operand=self.boolctx(e.operand))
+        a = self._len_arg(e)
+        if a is not None:
+            return a
+        if isinstance(e, ast.Compare) and len(e.ops) == 1 and isinstance(e.comparators[0], ast.Constant) and e.comparators[0].value == 0:
+            a = self._len_arg(e.left)
+            if a is not None:
+                if isinstance(e.ops[0], (ast.Gt, ast.NotEq)):
+                    return a
+                if isinstance(e.ops[0], ast.Eq):
+                    return ast.UnaryOp(op=ast.Not(), operand=a)
+        return e
+
+
 def nnf_text(e: ast.expr, neg: bool = False) -> str:
-    return ast.unparse(ast.fix_missing_locations(copy.deepcopy(nnf(e, neg))))
+    e2 = _Truthy().boolctx(copy.deepcopy(e))
+    return ast.unparse(ast.fix_missing_locations(copy.deepcopy(nnf(e2, neg))))
 
 
 def if_tests(fn: ast.AST) -> list[str]:
     return sorted({nnf_text(n.test) for n in ast.walk(fn) if isinstance(n, ast.If)})
+
+
+def if_tests_raw(fn: ast.AST) -> dict[str, str]:
+    """canonical text -> the test as written (used to put a test back exactly as the reference wrote it)"""
+    out = {}
+    for n in ast.walk(fn):
+        if isinstance(n, ast.If):
+            out.setdefault(nnf_text(n.test), ast.unparse(n.test))
+    return out
 
 
 # ------------------------------------------------------------------------------------------------ qualified names
@@ -164,15 +200,36 @@ def _terminal(block) -> bool:
 class _Guards:
     """rewrites one function; `known` = NNF texts of the if-tests the reference knows for it"""
 
-    def __init__(self, known: set[str]):
-        self.known = known
+    def __init__(self, known, raw=None):
+        self.known = set(known)
+        self.raw = raw or {}
         self.n = 0
+
+    def neg(self, test):
+        """the negated test, written the way the reference wrote it when it knows it"""
+        t = nnf_text(test, True)
+        if t in self.raw:
+            return ast.parse(self.raw[t], mode="eval").body
+        return nnf(test, True)
 
     def run(self, fn):
         self.have = set(if_tests(fn))
         self._block(fn.body, "return")
+        self._drop_trailing_return(fn.body)
         if self.n:
             ast.fix_missing_locations(fn)
+
+    def _drop_trailing_return(self, block):
+        """a bare `return` in tail position of a function body does nothing"""
+        if not block:
+            return
+        last = block[-1]
+        if _is_bare(last, "return") and len(block) > 1:
+            block.pop()
+            self._drop_trailing_return(block)
+        elif isinstance(last, ast.If):
+            self._drop_trailing_return(last.body)
+            self._drop_trailing_return(last.orelse)
 
     def _wanted(self, test, negated: bool) -> bool:
         """the (possibly negated) test is a shape the reference knows and the function does not contain yet, while the current
@@ -222,14 +279,14 @@ class _Guards:
                         if self._wanted(s.test, True):
                             inner = rest[:-1] if same_tail else rest
                             if inner and not any(isinstance(x, _FUNCS) for x in inner):
-                                new = ast.copy_location(ast.If(test=nnf(s.test, True), body=inner, orelse=[]), s)
+                                new = ast.copy_location(ast.If(test=self.neg(s.test), body=inner, orelse=[]), s)
                                 block[i:] = [new] + ([tail] if same_tail else [])
                                 self.n += 1
                                 changed = True
                                 break
                 # G3: `if T: <block that always leaves>` + rest  ->  `if not T: rest else: <block>`  (any terminal block: raise, return x, ...)
                 if s.body and _terminal(s.body) and rest and self._wanted(s.test, True) and not any(isinstance(x, _FUNCS) for x in rest):
-                    new = ast.copy_location(ast.If(test=nnf(s.test, True), body=rest, orelse=s.body), s)
+                    new = ast.copy_location(ast.If(test=self.neg(s.test), body=rest, orelse=s.body), s)
                     block[i:] = [new]
                     self.n += 1
                     changed = True
@@ -241,7 +298,7 @@ class _Guards:
                         term = ast.Continue() if kind == "continue" else ast.Return(value=None)
                     else:
                         term = ast.Return(value=copy.deepcopy(tail.value))
-                    guard = ast.copy_location(ast.If(test=nnf(s.test, True), body=[ast.copy_location(term, s)], orelse=[]), s)
+                    guard = ast.copy_location(ast.If(test=self.neg(s.test), body=[ast.copy_location(term, s)], orelse=[]), s)
                     block[i:i + 1] = [guard] + s.body
                     self.n += 1
                     changed = True
@@ -881,7 +938,7 @@ def normalise_guards(tree: ast.Module, modname: str) -> int:
         known = tests.get(key)
         if known is None:
             continue
-        g = _Guards(set(known))
+        g = _Guards(set(known), ref().get("if_tests_raw", {}).get(key, {}))
         g.run(fn)
         n += g.n
     return n
